@@ -753,8 +753,14 @@ func (m *vfMachine) step() {
 			return
 		}
 		m.submit(rec, before)
-	case op < 64:
+	case op < 61:
 		m.addBlock(before)
+	case op < 66:
+		if len(m.blocks) == 0 {
+			m.addBlock(before)
+			return
+		}
+		m.reorg()
 	case op < 69:
 		m.delBlock(before)
 	case op < 79:
@@ -835,6 +841,13 @@ func (m *vfMachine) addBlock(before []*Item) {
 		add(m.known[m.intn(len(m.known), "blkKnownIdx")])
 	}
 	m.height++
+	if m.intn(12, "blkGap") == 0 {
+		// a height is skipped (not something a reorganisation produces; the handler accepts any height and the
+		// property's clause about added blocks must hold for it all the same); the chain model gets an empty filler
+		m.blocks = append(m.blocks, &vfBlockRec{blk: &types.Block{Height: m.height, BlockTime: m.btime}})
+		m.height++
+		lib.Class("addBlock_skips_a_height")
+	}
 	m.btime += []int64{0, 1, 5, 60}[m.intn(4, "blkDT")]
 	blk := &types.Block{Height: m.height, BlockTime: m.btime}
 	var ids []string
@@ -849,19 +862,168 @@ func (m *vfMachine) addBlock(before []*Item) {
 	m.e.chain.mu.Unlock()
 	m.e.chain.setHeader(m.height, m.btime)
 	m.blocks = append(m.blocks, &vfBlockRec{blk: blk, recs: recs})
+	m.deliverAdd("addBlock", blk, ids)
+	if m.intn(10, "blkRepeat") == 0 { // the same block announced once more (its height is now <= the pool's header)
+		lib.Class("addBlock_repeated")
+		m.deliverAdd("addBlock-again", blk, ids)
+	}
+}
+
+// deliverAdd sends EventAddBlock and applies the C21 clause "the transactions of an added block are no longer in the
+// pool afterwards" (whatever the block's height is relative to the pool's header) plus the bookkeeping invariants.
+func (m *vfMachine) deliverAdd(op string, blk *types.Block, ids []string) {
+	before := m.e.entries()
+	hdr := m.e.mem.GetHeader().GetHeight()
 	m.e.cast(types.EventAddBlock, &types.BlockDetail{Block: blk})
-	m.log("addBlock", "height", m.height, "time", m.btime, "txs", ids)
+	m.log(op, "height", blk.Height, "time", blk.BlockTime, "txs", ids, "poolHeaderBefore", hdr)
 	lib.Class("addBlock")
+	switch {
+	case blk.Height <= hdr:
+		lib.Class("addBlock_height_not_above_pool_header")
+		for _, it := range before {
+			for _, tx := range blk.Txs {
+				if bytes.Equal(tx.Hash(), it.Value.Hash()) {
+					lib.Class("addBlock_height_not_above_pool_header_with_pooled_tx")
+				}
+			}
+		}
+	case blk.Height > hdr+1:
+		lib.Class("addBlock_height_beyond_pool_header+1")
+	}
 	now := vfHashSet(m.after(before))
-	// C21: the transactions of an added block are no longer in the pool afterwards
 	for _, tx := range blk.Txs {
 		if now[string(tx.Hash())] {
-			m.fail("transaction %s of the added block (%v) is still in the pool", vfHex(tx.Hash()), ids)
+			m.fail("transaction %s of the added block (height %d, pool header was %d, txs %v) is still in the pool", vfHex(tx.Hash()), blk.Height, hdr, ids)
 		}
 	}
-	if h := m.e.mem.GetHeader(); h.Height != m.height || h.BlockTime != m.btime {
-		lib.Inconclusive("fixture: mempool header %d/%d differs from the fake chain %d/%d", h.Height, h.BlockTime, m.height, m.btime)
+}
+
+// reorg replaces the top d blocks of the fake chain by a new branch of L blocks, as blockchain does: it disconnects
+// tip-first (EventDelBlock each, sent on the queue's LOW priority channel) and then connects the new branch upwards
+// (EventAddBlock each, HIGH priority). What reaches the pool is therefore any merge of the two sequences that keeps
+// each one's order, with the add-blocks tending to overtake; and when the pool handles a del-block it asks the
+// blockchain peer for its CURRENT last header, which is that of any later step of the reorganisation. Both are drawn.
+// Add-blocks at heights <= the pool's header, ignored del-blocks and header jumps all arise from this.
+func (m *vfMachine) reorg() {
+	d := 1 + m.intn(vfMin(3, len(m.blocks)), "reorgDepth")
+	l := 1 + m.intn(d+1, "reorgLen")
+	old := m.blocks[len(m.blocks)-d:]
+	base := m.blocks[:len(m.blocks)-d]
+	forkT := vfBaseTime
+	if len(base) > 0 {
+		forkT = base[len(base)-1].blk.BlockTime
 	}
+	// candidates for the new branch: what the old branch held (the usual case), what is pooled, fresh ones
+	var cand []*vfTxRec
+	for _, b := range old {
+		cand = append(cand, b.recs...)
+	}
+	for _, it := range m.e.entries() {
+		if r := m.byHash[string(it.Value.Hash())]; r != nil {
+			cand = append(cand, r, r) // pooled ones twice as likely: they are what the add-block clause is about
+		}
+	}
+	used := map[string]bool{}
+	type step struct {
+		del        bool
+		b          *vfBlockRec
+		hdrH, hdrT int64 // the blockchain's last header once it has performed this step
+	}
+	var steps []step
+	for i := d - 1; i >= 0; i-- {
+		t := forkT
+		if i > 0 {
+			t = old[i-1].blk.BlockTime
+		}
+		steps = append(steps, step{del: true, b: old[i], hdrH: old[i].blk.Height - 1, hdrT: t})
+	}
+	var fresh []*vfBlockRec
+	h, t := m.height-int64(d), forkT
+	for j := 0; j < l; j++ {
+		h++
+		t += []int64{0, 1, 5, 60}[m.intn(4, "reorgDT")]
+		nb := &vfBlockRec{blk: &types.Block{Height: h, BlockTime: t}}
+		for i, n := 0, m.intn(4, "reorgTxs"); i < n; i++ {
+			var r *vfTxRec
+			if len(cand) > 0 && m.intn(4, "reorgFresh") > 0 {
+				r = cand[m.intn(len(cand), "reorgCand")]
+			} else {
+				r = m.newRec(false)
+			}
+			if !used[r.ID] {
+				used[r.ID] = true
+				nb.recs = append(nb.recs, r)
+				nb.blk.Txs = append(nb.blk.Txs, r.members...)
+			}
+		}
+		fresh = append(fresh, nb)
+		steps = append(steps, step{b: nb, hdrH: h, hdrT: t})
+	}
+	lib.Class("reorg")
+	nextDel, nextAdd, done := 0, d, 0 // done = steps the blockchain has performed when the pool handles the next event
+	for nextDel < d || nextAdd < d+l {
+		var idx int
+		switch {
+		case nextDel == d, nextAdd < d+l && m.intn(3, "reorgAddFirst") > 0:
+			idx, nextAdd = nextAdd, nextAdd+1
+		default:
+			idx, nextDel = nextDel, nextDel+1
+		}
+		if done < idx+1 {
+			done = idx + 1
+		}
+		if m.intn(3, "reorgLag") == 0 {
+			done += m.intn(d+l-done+1, "reorgLagBy")
+		}
+		st, cur := steps[idx], steps[done-1]
+		m.e.chain.setHeader(cur.hdrH, cur.hdrT)
+		var ids []string
+		for _, r := range st.b.recs {
+			ids = append(ids, r.ID)
+		}
+		if !st.del {
+			m.deliverAdd("reorg-addBlock", st.b.blk, ids)
+			continue
+		}
+		before := m.e.entries()
+		hdr := m.e.mem.GetHeader().GetHeight()
+		m.e.cast(types.EventDelBlock, &types.BlockDetail{Block: st.b.blk})
+		m.log("reorg-delBlock", "height", st.b.blk.Height, "txs", ids, "poolHeaderBefore", hdr, "lastHeaderReply", cur.hdrH)
+		switch {
+		case st.b.blk.Height != hdr:
+			lib.Class("delBlock_height_differs_from_pool_header")
+		case cur.hdrH != st.b.blk.Height-1:
+			lib.Class("delBlock_last_header_reply_is_further_on")
+		}
+		m.lastAdmitted = nil
+		m.after(before)
+	}
+	// the fake chain is now on the new branch
+	m.e.chain.mu.Lock()
+	for _, b := range old {
+		for _, tx := range b.blk.Txs {
+			delete(m.e.chain.onChain, string(tx.Hash()))
+		}
+	}
+	for _, b := range fresh {
+		for _, tx := range b.blk.Txs {
+			m.e.chain.onChain[string(tx.Hash())] = true
+		}
+	}
+	m.e.chain.mu.Unlock()
+	m.blocks = append(append([]*vfBlockRec(nil), base...), fresh...)
+	m.height, m.btime = h, t
+	m.e.chain.setHeader(h, t)
+	if ph := m.e.mem.GetHeader(); ph.Height != h || ph.BlockTime != t {
+		lib.Class("reorg_leaves_pool_header_off_the_tip")
+	}
+}
+
+func vfMin(a, b int) int {
+	if a < b {
+		return a
+	}
+	return b
 }
 
 func (m *vfMachine) delBlock(before []*Item) {
